@@ -1018,7 +1018,7 @@ public:
 	}
 protected:
 	static const type_traits &content_traits() {
-		static type_traits traits(sizeof(T), _unref_reference, 0);
+		static type_traits traits(sizeof(reference<T>), _unref_reference, 0);
 		return traits;
 	}
 	static void _unref_reference(void *ptr)
